@@ -48,7 +48,7 @@ TABLE = {
             "Exhaustive over all reachable abstract router states of both routers: no cycle of non-consuming edges inside one poll, no Return Pending with an "
             "enabled source not registered or an unflushed sink not pending.",
             "CPU time and executor fairness are not decided.", "§3 C09"),
-    "C10": ("E3+E5", "PollAI typestate of server/buffered_err slots + constant agreement",
+    "C10": ("E3+E5", "PollAI typestate of server/buffered_err slots + constant agreement + error-frame conversion table rule on the client (the rejection code reaches is_recoverable_error)",
             "Single replier slot never replaced while bound; late replier gets REPLIER_ALREADY_BOUND (same constant the client classifies as retryable), "
             "is told then closed; rebind after the bound replier's stream ends.",
             "Close timing on the wire is not decided.", "§3 C10"),
@@ -64,7 +64,7 @@ TABLE = {
             "Checked/saturating arithmetic only, clamp on every path when a maximum is set, attempts counted 1..=max with > comparison, per-strategy "
             "dependence signature of the delay.",
             "The numerical law itself (exact values) is not decided.", "§3 C13"),
-    "C14": ("E5", "terminal-operation, table-agreement and disallowed-API rules over codecs/compression MIR",
+    "C14": ("E5", "terminal-operation, table-agreement, disallowed-API and whole-value backward-slice rules over codecs/compression MIR (helpers inlined)",
             "Each encoder is finished before its bytes are taken, comp/decomp choose the same library per variant, lossy/unchecked UTF-8 APIs are disallowed, "
             "bincode option family agrees.",
             "Losslessness of third-party codecs is not decided.", "§3 C14"),
@@ -76,9 +76,11 @@ TABLE = {
             "From every reachable router state with the channel closed and ready sinks, every path reaches Ready(()) with the buffer delivered and flushed; "
             "shutdown closes every topic channel before joining; lock order consistent.",
             "Bounded time in seconds and real sink readiness not decided.", "§3 C16"),
-    "C17": ("E5", "live-across-yield analysis of the global topics guard in handle_stream",
-            "While the global topics MutexGuard is live, no future whose completion depends on a peer/topic router may be awaited.",
-            "The >100 registrations race itself and QUIC flow control are not decided.", "§3 C17"),
+    "C17": ("E5", "live-across-yield analysis of the global topics guard and of any permit/guard across the hand-over wait; who-may-wait rule on the topic queue; per-topic task/channel rules; connection-window constant rule on both endpoints",
+            "While the global topics MutexGuard is live, no future whose completion depends on a peer/topic router may be awaited; the wait for room in a topic's queue "
+            "happens only in the stream's own task with nothing shared held; each topic has its own task and channel; the connection-level receive window of either "
+            "endpoint is not capped near the per-stream window.",
+            "The >100 registrations race itself and QUIC flow-control dynamics are not decided.", "§3 C17"),
 }
 
 
